@@ -310,9 +310,17 @@ func UpdateCheckpoint(outCli client.Redis, localCheckpoint string, ids []string)
 			Version: config.Version,
 		}
 		if len(cpName) > 0 { // restore old checkpoint
-			cpKv, _, err = GetCheckpoint(outCli, cpName, ids)
+			var cpDb int
+			cpKv, cpDb, err = GetCheckpoint(outCli, cpName, ids)
 			if err != nil {
 				return err
+			}
+			// GetCheckpoint leaves the connection in the db it visited last; the checkpoint must stay
+			// in the db it was found in, because replay resumes in the db that holds the checkpoint
+			if cpDb >= 0 {
+				if err = redis.SelectDB(outCli, uint32(cpDb)); err != nil {
+					return err
+				}
 			}
 		}
 
